@@ -291,9 +291,8 @@ MANIFEST = {
                   'of every represented page tree with distinct nodes and height <= PAGE_TREE_DEPTH_LIMIT+1 (C12_dfs), numbers '
                   'pages 1..n (C12_numbered), and on arbitrary graphs yields at most |objects| ids that are all Page '
                   'dictionaries (C12_total); size_hint observed on the fresh iterator and after every page keeps lower <= upper and '
-                  'its upper bound covers the pages still to come on ANY document (C12_size_hint_sound) and the fresh iterator '
-                  'announces exactly the number of leaves when the Count entries are right (C12_size_hint_exact_partial; the '
-                  'count-down after each page is checked on the implementation only); the limits are re-read from src/document.rs on every run and the model is '
+                  'its upper bound covers the pages still to come on ANY document (C12_size_hint_sound), and with all Count entries '
+                  'right its lower bound counts down n, n-1, .., 0 (C12_size_hint_countdown); the limits are re-read from src/document.rs on every run and the model is '
                   'tied to the implementation by differential runs on generated well-formed and damaged trees.',
     'level_note': 'Trusted: Coq kernel; translator (two constants + nine shape anchors); hand-written model of '
                   'PageTreeIter::next / size_hint tied by correspondence (observable: the yielded id list, get_pages map, '
